@@ -1,6 +1,7 @@
 (* driver_autoremove.ml — runs the extracted CounterRemover / ConditionalRemover model
    (coq/AutoRemoveModel.v) on case files.
-   usage: driver_autoremove model < cases > traces
+   usage: driver_autoremove <model|spec> < cases > traces     (model: the wrappers as generated from the
+          headers; spec: the wrappers as C16 promises them, independent of the headers)
    per case:   target list|disp|queue|hlist|hdisp   (list, hlist: the CallbackList specialisation of the helpers)
                helpers temp|kept                    (meaningful to the harness only)
                cb <c> <n> : cmds                    listener c, n-th activation
@@ -57,8 +58,8 @@ let print_ev = function
   | ARet b -> Printf.printf "ret %d\n" (if b then 1 else 0)
 
 let () =
-  (match Array.to_list Sys.argv with [_; "model"] -> ()
-   | _ -> prerr_endline "usage: driver_autoremove model"; exit 2);
+  let mech = (match Array.to_list Sys.argv with [_; "model"] -> true | [_; "spec"] -> false
+              | _ -> prerr_endline "usage: driver_autoremove <model|spec>"; exit 2) in
   let tbl : (int * int, acmd list) Hashtbl.t = Hashtbl.create 16 in
   let ctbl : (int * int, bool) Hashtbl.t = Hashtbl.create 16 in
   let fuel = ref 40 and islist = ref true in
@@ -77,7 +78,7 @@ let () =
        | "cb" :: c :: n :: ":" :: rest -> Hashtbl.replace tbl (ios c, ios n) (cmds rest)
        | ["cond"; p; n; v] -> Hashtbl.replace ctbl (ios p, ios n) (v = "1")
        | "main" :: ":" :: rest ->
-           (match autoremove_run_case !islist behav cverdict (nat_of_int !fuel) (cmds rest) with
+           (match autoremove_run_case mech !islist behav cverdict (nat_of_int !fuel) (cmds rest) with
             | Some ((tr, ovf), uaf) ->
                 List.iter print_ev tr;
                 if ovf then print_string "overflow\n";
